@@ -115,4 +115,86 @@ theorem forwarder_chain (S : Schema) (idN idW : Nat) (hf : (S.msg idN).fields = 
   exact specUnmarshal_same_records S idW _ n _ b rs mW
     (records_retag rs (selfParsing_of_records n b rs hr)) hr
 
+/-! ### an intermediary that knows some of the fields -/
+
+/-- the records of an input that message type `id` does not know -/
+def unknownOf (S : Schema) (id : Nat) (rs : List Record) : List Record :=
+  rs.filter fun r => (findField (S.msg id).fields r.num).isNone
+
+/-- mixed input: whatever the known records do to the slots, the captured bytes grow by exactly the
+unknown records, re-tagged, in input order -/
+theorem foldSteps_captured (S : Schema) (id : Nat) (hc : (S.msg id).capture = true) :
+    ∀ (rs : List Record) (slots : List Val) (u0 : Bytes) (v : Val),
+      Perm.foldSteps S id rs (.msg slots u0) = some v →
+      ∃ slots', v = .msg slots' (u0 ++ ((unknownOf S id rs).map fun r => tag r.num r.wire ++ r.raw).flatten) := by
+  intro rs
+  induction rs with
+  | nil =>
+    intro slots u0 v h
+    simp only [Perm.foldSteps, Option.some.injEq] at h
+    exact ⟨slots, by subst h; simp [unknownOf]⟩
+  | cons r rs ih =>
+    intro slots u0 v h
+    simp only [Perm.foldSteps] at h
+    cases hf : findField (S.msg id).fields r.num with
+    | none =>
+      unfold stepU at h
+      rw [Perm.step_unknown S _ id r _ hf, Perm.captureRec_msg, hc] at h
+      simp only [if_true, Option.bind_some] at h
+      obtain ⟨slots', hv⟩ := ih _ _ _ h
+      refine ⟨slots', ?_⟩
+      rw [hv]
+      simp [unknownOf, hf, List.append_assoc]
+    | some p =>
+      obtain ⟨i, f⟩ := p
+      unfold stepU at h
+      rw [Perm.step_known S _ id r slots u0 i f hf] at h
+      cases ha : applyU S (Perm.fieldOf f) r (Perm.target S f (slots.getD i Val.none)).1 with
+      | none => rw [ha] at h; cases h
+      | some w =>
+        rw [ha] at h
+        simp only [Option.map_some, Option.bind_some] at h
+        obtain ⟨slots', hv⟩ := ih _ _ _ h
+        refine ⟨slots', ?_⟩
+        rw [hv]
+        simp [unknownOf, hf]
+
+/-- C10 "the captured bytes are exactly those fields in their original order", for ANY accepted
+input — known and unknown fields interleaved in any way -/
+theorem capture_exact_mixed (S : Schema) (id : Nat) (hc : (S.msg id).capture = true) (n : Nat) (b : Bytes)
+    (rs : List Record) (hr : records n b = some rs) (slots : List Val) (u0 : Bytes) (v : Val)
+    (h : specUnmarshal S id b (.msg slots u0) = some v) :
+    ∃ slots', v = .msg slots' (u0 ++ ((unknownOf S id rs).map fun r => tag r.num r.wire ++ r.raw).flatten) := by
+  rw [Perm.specUnmarshal_records S id n b rs _ hr] at h
+  exact foldSteps_captured S id hc rs slots u0 v h
+
+/-- … and a receiver tokenizes the captured bytes into exactly those records: the unknown fields are
+forwarded intact, whatever their wire type -/
+theorem captured_bytes_records (S : Schema) (id : Nat) (n : Nat) (b : Bytes) (rs : List Record)
+    (hr : records n b = some rs) :
+    records ((unknownOf S id rs).length + 1)
+      ((unknownOf S id rs).map fun r => tag r.num r.wire ++ r.raw).flatten = some (unknownOf S id rs) :=
+  records_retag _ fun r hm => selfParsing_of_records n b rs hr r (List.mem_filter.mp hm).1
+
+/-- CHAIN, any intermediary: what the intermediary re-marshals is its known part (canonical) followed
+by the captured records; a receiver that accepts the known part applies, after it, exactly the
+sender's records the intermediary did not know, in the sender's order -/
+theorem chain_unknown_part (S : Schema) (idN idW : Nat) (hc : (S.msg idN).capture = true) (n : Nat) (b : Bytes)
+    (rs : List Record) (hr : records n b = some rs) (slots : List Val) (v : Val)
+    (h : specUnmarshal S idN b (.msg slots []) = some v) :
+    ∃ slots', v = .msg slots' ((unknownOf S idN rs).map fun r => tag r.num r.wire ++ r.raw).flatten ∧
+      specEnc S idN v = sortChunks (encSlots S (S.msg idN).fields slots')
+        ++ ((unknownOf S idN rs).map fun r => tag r.num r.wire ++ r.raw).flatten ∧
+      ∀ mW m1, specUnmarshal S idW (sortChunks (encSlots S (S.msg idN).fields slots')) mW = some m1 →
+        specUnmarshal S idW (specEnc S idN v) mW = Perm.foldSteps S idW (unknownOf S idN rs) m1 := by
+  obtain ⟨slots', hv⟩ := capture_exact_mixed S idN hc n b rs hr slots [] v h
+  rw [List.nil_append] at hv
+  have henc : specEnc S idN v = sortChunks (encSlots S (S.msg idN).fields slots')
+        ++ ((unknownOf S idN rs).map fun r => tag r.num r.wire ++ r.raw).flatten := by
+    rw [hv]; simp [specEnc, hc]
+  refine ⟨slots', hv, henc, ?_⟩
+  intro mW m1 hk
+  rw [henc, specUnmarshal_append S idW _ hk]
+  exact Perm.specUnmarshal_records S idW _ _ _ m1 (captured_bytes_records S idN n b rs hr)
+
 end Pico.Spec
